@@ -80,7 +80,8 @@ theorem page_mod {ps pstart a : Nat} (hp : pstart % ps = 0) (ha : a < ps) : (pst
 
 theorem frames_toks {ps : Nat} {crc : Crc} (hmax : ps ≤ 65542) {fs : Bytes} (hfs : Frames crc fs) :
     ∀ (pstart a idx : Nat) (pre : Bytes) (rst : RState) (tail : Bytes) (k : Nat) (out : List Bytes) (e : Nat),
-      pstart % ps = 0 → a + fs.length + k = ps → Sync rst (pstart + a) idx pre →
+      pstart % ps = 0 → (a + fs.length + k = ps ∨ (k = 0 ∧ tail = [] ∧ a + fs.length ≤ ps)) →
+      Sync rst (pstart + a) idx pre →
       (∀ rst' idx' pre' out', Sync rst' (pstart + ps) idx' pre' → rloop ps crc rst' tail = (out', .eof e) →
         LToks ps crc (pstart + ps) idx' pre' tail out') →
       rloop ps crc rst (fs ++ (zeros k ++ tail)) = (out, .eof e) →
@@ -89,25 +90,40 @@ theorem frames_toks {ps : Nat} {crc : Crc} (hmax : ps ≤ 65542) {fs : Bytes} (h
   | nil =>
     intro pstart a idx pre rst tail k out e hp hpage hsync htail hr
     simp only [List.length_nil, Nat.add_zero, List.nil_append] at *
-    by_cases hk : k = 0
-    · subst hk
-      simp only [zeros, List.replicate_zero, List.nil_append, Nat.add_zero] at *
-      subst hpage
-      exact htail rst idx pre out hsync hr
-    · have hlt : a < ps := by omega
-      have hm : (pstart + a) % ps = a := page_mod hp hlt
-      have hk' : k = ps - a := by omega
-      have hstep := rstep_zeros_gen ps crc rst tail a (by rw [hsync.1]; exact hm) hlt
-      rw [← hk'] at hstep
-      rw [rloop_of_cont hstep (by simp [zeros]; omega)] at hr
-      refine LToks.pad (pstart + a) idx pre k tail out (by omega) (by rw [hm]; exact hk') ?_
-      have hend : pstart + a + k = pstart + ps := by omega
-      rw [hend]
-      exact htail ⟨rst.total + k, rst.i, rst.buf, recPageTerm⟩ idx pre out
-        ⟨by show rst.total + k = _; rw [hsync.1, hend], hsync.2.1, hsync.2.2.1, hsync.2.2.2⟩ hr
+    rcases hpage with hpage | ⟨hk0, htl, _⟩
+    · by_cases hk : k = 0
+      · subst hk
+        simp only [zeros, List.replicate_zero, List.nil_append, Nat.add_zero] at *
+        subst hpage
+        exact htail rst idx pre out hsync hr
+      · have hlt : a < ps := by omega
+        have hm : (pstart + a) % ps = a := page_mod hp hlt
+        have hk' : k = ps - a := by omega
+        have hstep := rstep_zeros_gen ps crc rst tail a (by rw [hsync.1]; exact hm) hlt
+        rw [← hk'] at hstep
+        rw [rloop_of_cont hstep (by simp [zeros]; omega)] at hr
+        refine LToks.pad (pstart + a) idx pre k tail out (by omega) (by rw [hm]; exact hk') ?_
+        have hend : pstart + a + k = pstart + ps := by omega
+        rw [hend]
+        exact htail ⟨rst.total + k, rst.i, rst.buf, recPageTerm⟩ idx pre out
+          ⟨by show rst.total + k = _; rw [hsync.1, hend], hsync.2.1, hsync.2.2.1, hsync.2.2.2⟩ hr
+    · -- an open last page: nothing follows the fragments
+      subst hk0 htl
+      simp only [zeros, List.replicate_zero, List.append_nil] at hr ⊢
+      rw [rloop_nil] at hr
+      have : out = [] := (congrArg Prod.fst hr).symm
+      subst this
+      exact LToks.nil _ idx pre
   | cons typ part rest' hty _ ih =>
     intro pstart a idx pre rst tail k out e hp hpage hsync htail hr
     simp only [List.length_append, frame_length] at hpage
+    have hle : a + (7 + part.length + rest'.length) + k ≤ ps := by
+      rcases hpage with h | ⟨h1, _, h3⟩ <;> omega
+    have hpage' : a + (part.length + 7) + rest'.length + k = ps ∨
+        (k = 0 ∧ tail = [] ∧ a + (part.length + 7) + rest'.length ≤ ps) := by
+      rcases hpage with h | ⟨h1, h2, h3⟩
+      · exact Or.inl (by omega)
+      · exact Or.inr ⟨h1, h2, by omega⟩
     have hstep := rstep_frame' ps crc rst typ part (rest' ++ (zeros k ++ tail)) hty (by omega) (by omega)
     rw [List.append_assoc] at hr ⊢
     have hm : (pstart + a) % ps = a := page_mod hp (by omega)
@@ -141,7 +157,7 @@ theorem frames_toks {ps : Nat} {crc : Crc} (hmax : ps ≤ 65542) {fs : Bytes} (h
         rw [← hr1, hbuf]
         refine LToks.fin (pstart + a) idx pre typ part _ _ hfin hvi hfit ?_
         rw [Nat.add_assoc]
-        exact ih pstart (a + (part.length + 7)) 0 _ _ tail k _ e hp (by omega)
+        exact ih pstart (a + (part.length + 7)) 0 _ _ tail k _ e hp hpage'
           ⟨by show rst.total + 7 + part.length = _; omega, rfl, fun _ => rfl, fun h => absurd rfl h⟩ htail hr2
       · simp only [hfin, if_false] at hstep
         rw [rloop_of_cont hstep (by simp [frame_length]; omega)] at hr
@@ -160,43 +176,57 @@ theorem frames_toks {ps : Nat} {crc : Crc} (hmax : ps ≤ 65542) {fs : Bytes} (h
             simp [hne, s4 this]
         refine LToks.cont (pstart + a) idx pre typ part _ out hcont hvi hfit ?_
         rw [Nat.add_assoc]
-        exact ih pstart (a + (part.length + 7)) (idx + 1) _ _ tail k out e hp (by omega)
+        exact ih pstart (a + (part.length + 7)) (idx + 1) _ _ tail k out e hp hpage'
           ⟨by show rst.total + 7 + part.length = _; omega, by show rst.i + 1 = _; omega,
             fun h => absurd h (by omega), fun _ => hbuf⟩ htail hr
 
-/-- Whole pages. -/
-theorem pages_toks {ps : Nat} {crc : Crc} (hmax : ps ≤ 65542) :
+/-- Whole pages followed by an open last page (whole fragments, no padding yet). -/
+theorem pages_toks {ps : Nat} {crc : Crc} (hmax : ps ≤ 65542) (last : Bytes) (hlast : Frames crc last)
+    (hll : last.length ≤ ps) :
     ∀ (pages : List Bytes), (∀ p ∈ pages, p.length = ps ∧ PageOK crc p) →
       ∀ (pstart idx : Nat) (pre : Bytes) (rst : RState) (out : List Bytes) (e : Nat),
-        pstart % ps = 0 → Sync rst pstart idx pre → rloop ps crc rst pages.flatten = (out, .eof e) →
-        LToks ps crc pstart idx pre pages.flatten out := by
+        pstart % ps = 0 → Sync rst pstart idx pre →
+        rloop ps crc rst (pages.flatten ++ last) = (out, .eof e) →
+        LToks ps crc pstart idx pre (pages.flatten ++ last) out := by
   intro pages
   induction pages with
   | nil =>
-    intro _ pstart idx pre rst out e _ _ hr
-    rw [List.flatten_nil, rloop_nil] at hr
-    have : out = [] := (congrArg Prod.fst hr).symm
-    subst this
-    exact LToks.nil pstart idx pre
+    intro _ pstart idx pre rst out e hp hsync hr
+    rw [List.flatten_nil, List.nil_append] at hr ⊢
+    have := frames_toks hmax hlast pstart 0 idx pre rst [] 0 out e hp
+      (Or.inr ⟨rfl, rfl, by omega⟩) (by simpa using hsync) (fun _ _ _ _ _ h => by
+        rw [rloop_nil] at h
+        have : _ = [] := (congrArg Prod.fst h).symm
+        subst this
+        exact LToks.nil _ _ _) (by simpa [zeros] using hr)
+    simpa [zeros] using this
   | cons p pages ih =>
     intro hall pstart idx pre rst out e hp hsync hr
     obtain ⟨hlen, fs, k, hfs, rfl⟩ := hall p (by simp)
     have hrest := fun q hq => hall q (List.mem_cons_of_mem _ hq)
-    rw [List.flatten_cons, List.append_assoc] at hr ⊢
+    rw [List.flatten_cons, List.append_assoc, List.append_assoc] at hr ⊢
     have hl : fs.length + k = ps := by simpa [zeros] using hlen
-    have := frames_toks hmax hfs pstart 0 idx pre rst pages.flatten k out e hp (by omega)
-      (by simpa using hsync)
+    have := frames_toks hmax hfs pstart 0 idx pre rst (pages.flatten ++ last) k out e hp
+      (Or.inl (by omega)) (by simpa using hsync)
       (fun rst' idx' pre' out' hs' hr' =>
         ih hrest (pstart + ps) idx' pre' rst' out' e (by rw [Nat.add_mod, hp]; simp) hs' hr') hr
     simpa using this
 
-/-- A page-structured file that the `Reader` reads to the end has the LiveReader token structure, with
-    the `Reader`'s records. -/
+/-- A page-structured file, possibly with an open last page, that the `Reader` reads to the end has
+    the LiveReader token structure, with the `Reader`'s records. -/
+theorem ltoks_of_open {ps : Nat} {crc : Crc} (hmax : ps ≤ 65542) {full last : Bytes}
+    {out : List Bytes} {e : Nat} (hF : PagesOK ps crc full) (hlast : Frames crc last)
+    (hll : last.length ≤ ps)
+    (hr : rloop ps crc RState.init (full ++ last) = (out, .eof e)) :
+    LToks ps crc 0 0 [] (full ++ last) out := by
+  obtain ⟨pages, rfl, hall⟩ := hF
+  exact pages_toks hmax last hlast hll pages hall 0 0 [] RState.init out e (Nat.zero_mod _)
+    ⟨rfl, rfl, fun _ => rfl, fun h => absurd rfl h⟩ hr
+
 theorem ltoks_of_pages {ps : Nat} {crc : Crc} (hmax : ps ≤ 65542) {F : Bytes}
     {out : List Bytes} {e : Nat} (hF : PagesOK ps crc F)
     (hr : rloop ps crc RState.init F = (out, .eof e)) : LToks ps crc 0 0 [] F out := by
-  obtain ⟨pages, rfl, hall⟩ := hF
-  exact pages_toks hmax pages hall 0 0 [] RState.init out e (Nat.zero_mod _)
-    ⟨rfl, rfl, fun _ => rfl, fun h => absurd rfl h⟩ hr
+  have := ltoks_of_open (full := F) (last := []) hmax hF Frames.nil (Nat.zero_le _) (by simpa using hr)
+  simpa using this
 
 end Prom.Wal
